@@ -5,11 +5,14 @@
    [order_by_prefix] the one of the original tree.  Abstractions (see Model.v): the lexical ->
    value mapping is an input ([item] = term + parsed value); finite floats are exact dyadic
    values; the integer/decimal -> float conversions used by the operator '<' are arbitrary
-   functions c64 c32 that satisfy [conv_ok] (they never cross a number of the target format:
-   true of IEEE round-to-nearest, not proved here for the Rust library routines);
+   functions c64 c32 that satisfy [conv_ok] (they never cross a number of the target format);
+   [conv_ok] is PROVED for round-to-nearest-even into binary64 / binary32 (Rounding.v: c64_round,
+   c32_round; section "conversions" below), which is what `isize as f64/f32` computes, and REFUTED
+   for the library routines that the engine calls on decimals (Engine.v: c64_engine, transcribed
+   from bigdecimal 0.4.10 / num-bigint 0.4.8 and tied by the harness);
    sort_unstable_by is specified by its contract (a sorted permutation). *)
 From Coq Require Import QArith Sorting.Sorted Sorting.Permutation.
-From Sophia.C14 Require Import Model Proofs Context ContextProofs.
+From Sophia.C14 Require Import Model Proofs Context ContextProofs Rounding RoundingProofs Engine EngineProofs.
 Close Scope Q_scope.
 Open Scope N_scope.
 
@@ -230,6 +233,164 @@ Check (eval_expr_ok : forall ds gm b e,
   forall i, eval_expr ds gm b e = Some i -> item_ok i).
 Check witness_hypotheses.
 
+(* ---------- conversions integer/decimal -> binary64 / binary32 (harness kinds v:.., Rounding.v, Engine.v) ---------- *)
+(* round-to-nearest-even of a rational into any binary format with at least one bit, gradual underflow and
+   overflow to infinity: (a) monotone, (b) the identity on the numbers of the format, (c) hence [conv_ok] *)
+Check (round_q_monotone : forall prec emin emax, (1 <= prec)%Z ->
+  forall x y, Qle x y -> fl_le (round_q prec emin emax x) (round_q prec emin emax y)).
+Check (round_q_identity : forall prec emin emax, (1 <= prec)%Z -> forall s m e,
+  in_format prec emin emax (FFin s m e) ->
+  fl_partial_cmp (round_q prec emin emax (q_of_fin s m e)) (FFin s m e) = Some Eq).
+Check (conv_round_ok : forall prec emin emax, (1 <= prec)%Z ->
+  conv_ok (conv_round prec emin emax) (in_format prec emin emax)).
+Check (round_q_not_nan : forall prec emin emax x, exists E, fl_ext (round_q prec emin emax x) = Some E).
+(* binary64 and binary32 *)
+Check (round64_monotone : forall x y, Qle x y -> fl_le (round64 x) (round64 y)).
+Check (round32_monotone : forall x y, Qle x y -> fl_le (round32 x) (round32 y)).
+Check (round64_identity : forall s m e, f64 (FFin s m e) -> fl_partial_cmp (round64 (q_of_fin s m e)) (FFin s m e) = Some Eq).
+Check (round32_identity : forall s m e, f32 (FFin s m e) -> fl_partial_cmp (round32 (q_of_fin s m e)) (FFin s m e) = Some Eq).
+Check (c64_round_monotone : forall n1 n2 q1 q2,
+  num_q n1 = Some q1 -> num_q n2 = Some q2 -> Qle q1 q2 -> fl_le (c64_round n1) (c64_round n2)).
+Check (c32_round_monotone : forall n1 n2 q1 q2,
+  num_q n1 = Some q1 -> num_q n2 = Some q2 -> Qle q1 q2 -> fl_le (c32_round n1) (c32_round n2)).
+Check (c64_round_exact : forall n s m e,
+  num_q n = Some (q_of_fin s m e) -> f64 (FFin s m e) -> fl_partial_cmp (c64_round n) (FFin s m e) = Some Eq).
+Check (c32_round_exact : forall n s m e,
+  num_q n = Some (q_of_fin s m e) -> f32 (FFin s m e) -> fl_partial_cmp (c32_round n) (FFin s m e) = Some Eq).
+Check (c64_round_ok : conv_ok c64_round f64).
+Check (c32_round_ok : conv_ok c32_round f32).
+Check (f64_b_sound : forall f, f64_b f = true -> f64 f).
+Check (f32_b_sound : forall f, f32_b f = true -> f32 f).
+Check (f32_is_f64 : forall f, f32 f -> f64 f).
+(* (d) the cross-type theorems with these conversions: no hypothesis on the conversions is left *)
+Check (order_by_refines_cmp_ieee : forall a b r,
+  item_ok a -> item_ok b -> item_fmt_ieee a -> item_fmt_ieee b ->
+  sparql_cmp c64_round c32_round a b = Some r -> r <> Eq -> order_by a b = r).
+Check (order_by_respects_lt_ieee : forall a b,
+  item_ok a -> item_ok b -> item_fmt_ieee a -> item_fmt_ieee b ->
+  lt_sparql c64_round c32_round a b = Some true -> order_by a b = Lt).
+Check (order_by_respects_compare_ieee : forall a b,
+  item_ok a -> item_ok b -> item_fmt_ieee a -> item_fmt_ieee b ->
+  sparql_compare c64_round c32_round is_lt a b = Some true -> order_by a b = Lt).
+Check (sorted_output_respects_lt_ieee : forall d ds rows out,
+  Forall (row_ok (d :: ds)) rows -> Forall row_fmt_ieee rows ->
+  Permutation rows out -> Sorted (rows_le (d :: ds)) out ->
+  forall i j a b, (i < j < length out)%nat ->
+    hd None (nth i out []) = Some a -> hd None (nth j out []) = Some b ->
+    (if d then lt_sparql c64_round c32_round a b else lt_sparql c64_round c32_round b a) <> Some true).
+Check (sorted_output_respects_lt_at_key_ieee : forall descs rows out,
+  Forall (row_ok descs) rows -> Forall row_fmt_ieee rows ->
+  Permutation rows out -> Sorted (rows_le descs) out ->
+  forall i j k a b, (i < j < length out)%nat -> (k < length descs)%nat ->
+    (forall m, (m < k)%nat ->
+       key_cmp order_by (nth m (nth i out []) None) (nth m (nth j out []) None) = Eq) ->
+    nth k (nth i out []) None = Some a -> nth k (nth j out []) None = Some b ->
+    (if nth k descs false then lt_sparql c64_round c32_round a b else lt_sparql c64_round c32_round b a) <> Some true).
+(* an integer or decimal against a double / a float, for all values: a strict answer of the promoted
+   comparison is the order of the exact values *)
+Check (num_cmp_ieee_exact : forall n1 n2 r,
+  num_fmt f64 f32 n1 -> num_fmt f64 f32 n2 -> r <> Eq ->
+  num_partial_cmp c64_round c32_round n1 n2 = Some r -> num_exact_cmp n1 n2 = Some r).
+Check (exact_vs_double_ieee : forall n q s m e,
+  num_q n = Some q -> f64 (FFin s m e) ->
+  (num_partial_cmp c64_round c32_round n (Double (FFin s m e)) = Some Lt -> Qlt q (q_of_fin s m e))
+  /\ (num_partial_cmp c64_round c32_round n (Double (FFin s m e)) = Some Gt -> Qlt (q_of_fin s m e) q)
+  /\ (num_partial_cmp c64_round c32_round (Double (FFin s m e)) n = Some Lt -> Qlt (q_of_fin s m e) q)
+  /\ (num_partial_cmp c64_round c32_round (Double (FFin s m e)) n = Some Gt -> Qlt q (q_of_fin s m e))).
+Check (exact_vs_float_ieee : forall n q s m e,
+  num_q n = Some q -> f32 (FFin s m e) ->
+  (num_partial_cmp c64_round c32_round n (Float (FFin s m e)) = Some Lt -> Qlt q (q_of_fin s m e))
+  /\ (num_partial_cmp c64_round c32_round n (Float (FFin s m e)) = Some Gt -> Qlt (q_of_fin s m e) q)
+  /\ (num_partial_cmp c64_round c32_round (Float (FFin s m e)) n = Some Lt -> Qlt (q_of_fin s m e) q)
+  /\ (num_partial_cmp c64_round c32_round (Float (FFin s m e)) n = Some Gt -> Qlt q (q_of_fin s m e))).
+(* the conversions that the engine performs (Engine.v: `isize as`, Rust's parser on the digits of a big integer or of
+   a decimal) ARE round-to-nearest-even, so [conv_ok] holds for them and nothing is assumed about the conversions any more *)
+Check (engine_is_rne : forall n, c64_engine n = c64_round n /\ c32_engine n = c32_round n).
+Check (c64_engine_ok : conv_ok c64_engine f64).
+Check (c32_engine_ok : conv_ok c32_engine f32).
+Check (c64_engine_monotone : forall n1 n2 q1 q2,
+  num_q n1 = Some q1 -> num_q n2 = Some q2 -> Qle q1 q2 -> fl_le (c64_engine n1) (c64_engine n2)).
+Check (c32_engine_monotone : forall n1 n2 q1 q2,
+  num_q n1 = Some q1 -> num_q n2 = Some q2 -> Qle q1 q2 -> fl_le (c32_engine n1) (c32_engine n2)).
+Check (order_by_refines_cmp_engine : forall a b r,
+  item_ok a -> item_ok b -> item_fmt f64 f32 a -> item_fmt f64 f32 b ->
+  sparql_cmp c64_engine c32_engine a b = Some r -> r <> Eq -> order_by a b = r).
+Check (order_by_respects_lt_engine : forall a b,
+  item_ok a -> item_ok b -> item_fmt f64 f32 a -> item_fmt f64 f32 b ->
+  lt_sparql c64_engine c32_engine a b = Some true -> order_by a b = Lt).
+Check (order_by_respects_compare_engine : forall a b,
+  item_ok a -> item_ok b -> item_fmt f64 f32 a -> item_fmt f64 f32 b ->
+  sparql_compare c64_engine c32_engine is_lt a b = Some true -> order_by a b = Lt).
+Check (sorted_output_respects_lt_engine : forall d ds rows out,
+  Forall (row_ok (d :: ds)) rows -> Forall row_fmt_ieee rows ->
+  Permutation rows out -> Sorted (rows_le (d :: ds)) out ->
+  forall i j a b, (i < j < length out)%nat ->
+    hd None (nth i out []) = Some a -> hd None (nth j out []) = Some b ->
+    (if d then lt_sparql c64_engine c32_engine a b else lt_sparql c64_engine c32_engine b a) <> Some true).
+Check (sorted_output_respects_lt_at_key_engine : forall descs rows out,
+  Forall (row_ok descs) rows -> Forall row_fmt_ieee rows ->
+  Permutation rows out -> Sorted (rows_le descs) out ->
+  forall i j k a b, (i < j < length out)%nat -> (k < length descs)%nat ->
+    (forall m, (m < k)%nat ->
+       key_cmp order_by (nth m (nth i out []) None) (nth m (nth j out []) None) = Eq) ->
+    nth k (nth i out []) None = Some a -> nth k (nth j out []) None = Some b ->
+    (if nth k descs false then lt_sparql c64_engine c32_engine a b else lt_sparql c64_engine c32_engine b a) <> Some true).
+Check (num_cmp_engine_exact : forall n1 n2 r,
+  num_fmt f64 f32 n1 -> num_fmt f64 f32 n2 -> r <> Eq ->
+  num_partial_cmp c64_engine c32_engine n1 n2 = Some r -> num_exact_cmp n1 n2 = Some r).
+Check (exact_vs_double_engine : forall n q s m e,
+  num_q n = Some q -> f64 (FFin s m e) ->
+  (num_partial_cmp c64_engine c32_engine n (Double (FFin s m e)) = Some Lt -> Qlt q (q_of_fin s m e))
+  /\ (num_partial_cmp c64_engine c32_engine n (Double (FFin s m e)) = Some Gt -> Qlt (q_of_fin s m e) q)
+  /\ (num_partial_cmp c64_engine c32_engine (Double (FFin s m e)) n = Some Lt -> Qlt (q_of_fin s m e) q)
+  /\ (num_partial_cmp c64_engine c32_engine (Double (FFin s m e)) n = Some Gt -> Qlt q (q_of_fin s m e))).
+Check (exact_vs_float_engine : forall n q s m e,
+  num_q n = Some q -> f32 (FFin s m e) ->
+  (num_partial_cmp c64_engine c32_engine n (Float (FFin s m e)) = Some Lt -> Qlt q (q_of_fin s m e))
+  /\ (num_partial_cmp c64_engine c32_engine n (Float (FFin s m e)) = Some Gt -> Qlt (q_of_fin s m e) q)
+  /\ (num_partial_cmp c64_engine c32_engine (Float (FFin s m e)) n = Some Lt -> Qlt (q_of_fin s m e) q)
+  /\ (num_partial_cmp c64_engine c32_engine (Float (FFin s m e)) n = Some Gt -> Qlt q (q_of_fin s m e))).
+(* before the repairs (c64_prefix / c32_prefix: BigInt::to_f64 / to_f32, BigDecimal::to_f64, to_f32 through f64) the
+   full statement was false: BigDecimal::to_f64 maps 10^100 + 1.5 beyond the double nearest to 10^100, and the engine's
+   '<' then contradicted ORDER BY; the hypothesis, one number at a time, held wherever the library routines returned the
+   correctly rounded values (decidable: prefix_agree_b) *)
+Check (c64_prefix_crosses_a_double :
+  exists n q f v, num_q n = Some q /\ f64 f /\ fl_ext f = Some (EFin v) /\ Qle q v /\ ~ fl_le (c64_prefix n) f).
+Check (c64_prefix_conv_ok_refuted : ~ conv_ok c64_prefix f64).
+Check (order_by_respects_lt_prefix_refuted :
+  exists a b, item_ok a /\ item_ok b /\ item_fmt f64 f32 a /\ item_fmt f64 f32 b /\
+    lt_sparql c64_prefix c32_prefix a b = Some true /\ order_by a b = Gt).
+Check witness_repaired.
+Check prefix_is_not_rne.
+Check (conv_ok_all : forall c fmt, conv_ok c fmt <-> forall n, conv_ok_at c fmt n).
+Check (order_by_refines_cmp_at : forall c64 c32 f64 f32 a b r,
+  item_conv_ok c64 c32 f64 f32 a -> item_conv_ok c64 c32 f64 f32 b ->
+  item_ok a -> item_ok b -> item_fmt f64 f32 a -> item_fmt f64 f32 b ->
+  sparql_cmp c64 c32 a b = Some r -> r <> Eq -> order_by a b = r).
+Check (order_by_respects_lt_at : forall c64 c32 f64 f32 a b,
+  item_conv_ok c64 c32 f64 f32 a -> item_conv_ok c64 c32 f64 f32 b ->
+  item_ok a -> item_ok b -> item_fmt f64 f32 a -> item_fmt f64 f32 b ->
+  lt_sparql c64 c32 a b = Some true -> order_by a b = Lt).
+Check (prefix_ok_when_rne : forall n, prefix_agree_b n = true -> num_conv_ok c64_prefix c32_prefix f64 f32 n).
+Check (order_by_respects_lt_prefix_restricted : forall a b,
+  item_prefix_safe a -> item_prefix_safe b ->
+  item_ok a -> item_ok b -> item_fmt f64 f32 a -> item_fmt f64 f32 b ->
+  lt_sparql c64_prefix c32_prefix a b = Some true -> order_by a b = Lt).
+(* the hypotheses are satisfiable: floats as the harness prints them are in the formats *)
+Example conversion_hypotheses_inhabited :
+  f64_b (FFin false 4503599627370496 1) = true /\ f32_b (FFin true 8388608 (-23)) = true
+  /\ f64_b (FFin false 1 (-1074)) = true /\ f64_b (FFin false 9007199254740991 971) = true
+  /\ f64_b (FFin false 9007199254740992 0) = false /\ f32_b (FFin false 16777215 105) = false
+  /\ item_fmt_ieee w_2p53d /\ item_fmt_ieee w_dec2 /\ row_fmt_ieee [Some w_2p53d; None]
+  /\ item_prefix_safe w_dec2 /\ item_prefix_safe w_2p53p1 /\ item_prefix_safe w_nan.
+Proof.
+  do 6 (split; [vm_compute; reflexivity|]).
+  split; [apply f64_b_sound; vm_compute; reflexivity|].
+  split; [exact I|].
+  split; [repeat constructor; apply f64_b_sound; vm_compute; reflexivity|].
+  split; [vm_compute; reflexivity|]. split; exact I.
+Qed.
+
 (* non-vacuity *)
 Check order_by_on_witnesses.
 Check hypotheses_inhabited.
@@ -291,3 +452,52 @@ Print Assumptions keys_elsewhere_observable_under_graph.
 Print Assumptions ctx_ok_ordered.
 Print Assumptions eval_expr_ok.
 Print Assumptions witness_hypotheses.
+Print Assumptions round_q_monotone.
+Print Assumptions round_q_identity.
+Print Assumptions conv_round_ok.
+Print Assumptions round_q_not_nan.
+Print Assumptions round64_monotone.
+Print Assumptions round32_monotone.
+Print Assumptions round64_identity.
+Print Assumptions round32_identity.
+Print Assumptions c64_round_monotone.
+Print Assumptions c32_round_monotone.
+Print Assumptions c64_round_exact.
+Print Assumptions c32_round_exact.
+Print Assumptions c64_round_ok.
+Print Assumptions c32_round_ok.
+Print Assumptions f64_b_sound.
+Print Assumptions f32_b_sound.
+Print Assumptions f32_is_f64.
+Print Assumptions order_by_refines_cmp_ieee.
+Print Assumptions order_by_respects_lt_ieee.
+Print Assumptions order_by_respects_compare_ieee.
+Print Assumptions sorted_output_respects_lt_ieee.
+Print Assumptions sorted_output_respects_lt_at_key_ieee.
+Print Assumptions num_cmp_ieee_exact.
+Print Assumptions exact_vs_double_ieee.
+Print Assumptions exact_vs_float_ieee.
+Print Assumptions engine_is_rne.
+Print Assumptions c64_engine_ok.
+Print Assumptions c32_engine_ok.
+Print Assumptions c64_engine_monotone.
+Print Assumptions c32_engine_monotone.
+Print Assumptions order_by_refines_cmp_engine.
+Print Assumptions order_by_respects_lt_engine.
+Print Assumptions order_by_respects_compare_engine.
+Print Assumptions sorted_output_respects_lt_engine.
+Print Assumptions sorted_output_respects_lt_at_key_engine.
+Print Assumptions num_cmp_engine_exact.
+Print Assumptions exact_vs_double_engine.
+Print Assumptions exact_vs_float_engine.
+Print Assumptions c64_prefix_crosses_a_double.
+Print Assumptions c64_prefix_conv_ok_refuted.
+Print Assumptions order_by_respects_lt_prefix_refuted.
+Print Assumptions witness_repaired.
+Print Assumptions prefix_is_not_rne.
+Print Assumptions conv_ok_all.
+Print Assumptions order_by_refines_cmp_at.
+Print Assumptions order_by_respects_lt_at.
+Print Assumptions prefix_ok_when_rne.
+Print Assumptions order_by_respects_lt_prefix_restricted.
+Print Assumptions conversion_hypotheses_inhabited.
